@@ -47,7 +47,9 @@ multi-step sequence, a boundary value, a particular combination of features, two
 not something that ordinary use or a smoke test would expose at once. Keep it small (1-15 lines).
 Do not edit tests, golden files, docs or packaging. Do not add comments that reveal the change is deliberate.
 
-Earlier rounds already made these changes for this property; choose a DIFFERENT function or mechanism:
+Earlier rounds already made these changes for this property; choose a DIFFERENT function or mechanism
+(prefer a function or file named in the property's `anchors` that none of them touched, or a helper
+those functions rely on; the change may also sit in a caller that feeds them wrong arguments):
 {chr(10).join(earlier) if earlier else '- (none)'}
 
 HOW TO RUN THE CODE. The sandbox's installed guppylang (in /venv) is a NEWER release than this
